@@ -512,6 +512,7 @@ func (c *Channel) StartInFlightTimeout(msg *Message, clientID int64, timeout tim
 	if err != nil {
 		return err
 	}
+	verifPoint("inflight:between-map-and-pq")
 	c.addToInFlightPQ(msg)
 	return nil
 }
